@@ -272,10 +272,33 @@ async fn run(case: &Case, rep: &mut CaseReport) -> Option<(String, String)> {
             }
             COp::SubmitLost(p) => {
                 let p = 1 + (p as usize % n_peers as usize);
-                if !case.short_timeout || case.nat & (1 << (p - 1)) != 0 || cut_at.contains_key(&p) {
+                if case.nat & (1 << (p - 1)) != 0 || cut_at.contains_key(&p) {
                     continue;
                 }
                 let held = w.snaps[0].sessions.iter().any(|s| s.addr.socket_addr == w.nodes[p].addr);
+                if !case.short_timeout {
+                    // 1-day regime: the request is encrypted under the session (a use of it), lost, and
+                    // times out for good; the session stays (it is kept for future use)
+                    if !held || case.retries > 1 {
+                        continue;
+                    }
+                    act(&mut w, &Op::Submit { from: 0, to: p as u8, body: Body::Ping, with_record: true });
+                    w.settle().await;
+                    w.step += 1;
+                    w.pool.clear();
+                    crate::engines::wire_interp::advance(&mut w, Duration::from_millis(REQUEST_TIMEOUT_MS * 3 / 2)).await;
+                    w.pool.clear();
+                    last_use.insert(p, opi + 1);
+                    last_touch.insert(p, Instant::now());
+                    rep.class("request-under-a-live-session-lost-and-timed-out(1-day regime)");
+                    if !w.snaps[0].sessions.iter().any(|s| s.addr.socket_addr == w.nodes[p].addr) {
+                        return Some((
+                            "sessions/session-lost-without-capacity-pressure".into(),
+                            format!("V's request to peer {p} went unanswered and timed out; V's session with that peer is gone although nothing needed room (timeout 1 day)"),
+                        ));
+                    }
+                    continue;
+                }
                 let idle = last_touch.get(&p).map(|t| t.elapsed());
                 let ev0 = w.events.len();
                 act(&mut w, &Op::Submit { from: 0, to: p as u8, body: Body::Ping, with_record: true });
@@ -596,7 +619,7 @@ impl Property for C15 {
                 3 => (0u8..6).prop_map(COp::ExchangeIn),
                 3 => (0u8..6, after()).prop_map(|(p, a)| COp::IdleLong(p, a)),
                 1 => (30u8..100).prop_map(COp::Nap),
-                1 => (0u8..6).prop_map(COp::SubmitLost),
+                2 => (0u8..6).prop_map(COp::SubmitLost),
             ]
         };
         let nat = || prop_oneof![3 => Just(0u8), 1 => any::<u8>()];
